@@ -11,8 +11,10 @@ go build -tags verif -o .build/warm-vseq ./cmd/vseq
 rm -f .build/warm-vseq
 if [ -d cmd/vconc ] && ls cmd/vconc/*.go >/dev/null 2>&1; then
   rm -rf .build/warm && mkdir -p .build/warm
-  bin/vinst -repo /repo -out .build/warm -rt /verif/vsched -maprange github.com/biogo/hts/bgzf/cache github.com/biogo/hts/bgzf github.com/biogo/hts/bgzf/cache
+  bin/vinst -repo /repo -out /verif/.build/warm -rt /verif/vsched -maprange github.com/biogo/hts/bgzf/cache github.com/biogo/hts/bgzf github.com/biogo/hts/bgzf/cache
   go build -tags verif -overlay .build/warm/overlay.json -o .build/warm/vconc ./cmd/vconc
   rm -rf .build/warm
 fi
+# the instrumentation must reproduce the baseline results of the repository's own tests (pass-through mode)
+./selfcheck.sh
 echo setup ok
